@@ -30,6 +30,16 @@ impl Driven for D {
          _ => panic!("verif harness: unknown relation {}", rel),
       }
    }
+   fn clear(&mut self, rel: &str) {
+      match rel {
+         "r2" => { self.0.r2 = Default::default(); },
+         "r3" => { self.0.r3 = Default::default(); },
+         "r1" => { self.0.r1 = Default::default(); },
+         "u" => { self.0.u = Default::default(); },
+         "t" => { self.0.t = Default::default(); },
+         _ => panic!("verif harness: unknown relation {}", rel),
+      }
+   }
    fn run(&mut self) { self.0.run(); }
    fn dump(&self) -> Value {
       let mut m: Vec<(String, Value)> = vec![];
